@@ -184,12 +184,18 @@ def check_names(idx: Index, rep: Report) -> None:
 def check_ident_or_string(idx: Index, rep: Report) -> None:
     r = rep.rule("C04.R3", "the printer decides 'bare identifier or string literal' with the lexer's own bare-identifier regex, and that regex is what the lexer lexes as one BARE_IDENT", floor=2)
     f = idx.func(PRINTER, "Printer.print_identifier_or_string_literal")
-    tests = [unparse(c) for c in calls_in(f.node) if call_attr(c) == "fullmatch"]
     s = f.node.args.args[1].arg
-    if tests == [f"MLIRLexer.bare_identifier_regex.fullmatch({s})"]:
-        r.ok(f.fq, f"{f.loc} uses MLIRLexer.bare_identifier_regex.fullmatch")
-    else:
-        r.fail(f.fq, Finding("C04.R3", f.fq, "own-identifier-test", f"identifier test is {tests}; it must be MLIRLexer.bare_identifier_regex.fullmatch so that printer and lexer cannot drift apart", f.loc))
+    tests = [c for c in calls_in(f.node) if call_attr(c) in ("fullmatch", "match", "search") and isinstance(c.func, ast.Attribute) and c.args and unparse(c.args[0]) == s]
+    if len(tests) != 1:
+        raise AnalysisError(f"{f.fq}: expected one regex test of `{s}`, found {[unparse(t) for t in tests]}")
+    tcall = tests[0]
+    from ..rx_extract import regex_of_expr
+
+    try:
+        p_pat, p_fl = regex_of_expr(idx, f.module, tcall.func.value, f.cls)
+        printed = rx.match_language(p_pat, p_fl, call_attr(tcall))
+    except NotImplementedError as e:
+        raise AnalysisError(f"{f.fq}: `{unparse(tcall)}`: {e}")
     bi_pat, bi_fl = class_regex(idx, LEXER, "MLIRLexer", "bare_identifier_regex")
     sx_pat, sx_fl = class_regex(idx, LEXER, "MLIRLexer", "bare_identifier_suffix_regex")
     # the lexer: first char isalpha() or '_', then the suffix regex
@@ -208,6 +214,11 @@ def check_ident_or_string(idx: Index, rep: Report) -> None:
     if "'_'" not in first:
         fc = fc - {ord("_")}
     lexed = rx.concat(rx.from_classes([frozenset(fc)]), rx.from_regex(sx_pat, sx_fl))
+    wp = rx.included(printed, lexed)
+    if wp is None:
+        r.ok(f.fq, f"{f.loc} strings accepted by `{unparse(tcall)}` ({p_pat!r}) are all lexed as one BARE_IDENT")
+    else:
+        r.fail(f.fq, Finding("C04.R3", f.fq, "own-identifier-test", f"`{unparse(tcall)}` succeeds on {rx.show(wp)!r} (pattern {p_pat!r} with .{call_attr(tcall)}), so that string is printed unquoted, but the lexer does not read it back as one bare identifier", f.loc))
     w = rx.included(rx.from_regex(bi_pat, bi_fl), lexed)
     if w is None:
         r.ok("bare_identifier_regex ⊆ lexed BARE_IDENT", f"L({bi_pat!r}) ⊆ [{first}]·L({sx_pat!r})")
